@@ -243,7 +243,8 @@ static std::string run_case(const std::string& kind, unsigned seed, long rounds,
     for (int n = 0; n < 5; ++n) c.skip(n, false);
     let_it_step(2);
     c.teardown();
-    c.is_running(); c.step_number();                 // queries between teardown and join
+    // queries between teardown and join, while the filtering thread winds down and exits
+    for (int i = 0; i < 40; ++i) { c.is_running(); usleep(25); c.step_number(); usleep(25); }
     c.wait();
     (void) f->is_running(); (void) f->step_number(); // after the join: ordered, never a race
     std::ostringstream os;
